@@ -46,8 +46,8 @@ def run():
         (_, o_off), res_off = jobs[i + 1], results[i + 1]
         label = "generated document %d" % (i // 2)
         counts["cli_runs"] += 2
-        bad = False
-        for res, o in ((res_on, o_on), (res_off, o_off)):
+        bad = any([clirun.watchdog(res, r, label) for res in (res_on, res_off)])
+        for res, o in (() if bad else ((res_on, o_on), (res_off, o_off))):
             if res.rc != 0 or res.totals() is None:
                 r.witness("CLI run failed (rc=%s)" % res.rc, {"doc": label, "opts": o, "stderr": res.stderr_tail[-500:]})
                 bad = True
@@ -109,6 +109,8 @@ def run():
     for (doc, o, nm), res in zip(sel_jobs, sel_res):
         counts["selection_runs"] += 1
         label = "selection of %s" % nm
+        if clirun.watchdog(res, r, label):
+            continue
         if res.rc != 0:
             r.witness("CLI run with -c failed (rc=%s)" % res.rc, {"doc": label, "opts": o, "stderr": res.stderr_tail[-500:]})
             continue
